@@ -64,5 +64,17 @@ PROPS["C13"] = {
     "replay_help": "case.kind=calc: (off seconds, type 0 day/1 month/2 year, ts ms, interval ms): correspondence_code 1 = some calculator output differs from the model, oracle_code 1 = the implementation's own numbers violate containment/tiling/idempotence/slot bound; case.kind=plan: planner inputs",
 }
 
+PROPS["C17"] = {
+    "harness": "c17",
+    "props_files": ["C17/Props.v"],
+    "n": {"quick": 400, "thorough": 6000},
+    "level_text": "Theorems (Coq, no axioms): structural induction on the 12-constructor expression AST shows unmarshal (marshal e) = e for every expression tree, and query_roundtrip shows the same for every statement record with every combination of absent (omitempty) clauses, over an abstract JSON tree. Tied to the code by generating SQL text (parsed by the real ANTLR parser) and raw AST trees, and checking that the model's marshal produces exactly the JSON tree the Go code put on the wire (key order included) and that the model's decoder accepts it.",
+    "level_note": "Trusted: the JSON library (tree <-> bytes), float and interval text forms (carried opaquely in the model; their Go round trip is checked directly by the harness), the ANTLR parser (statement model starts at the AST; parse determinism is tested).",
+    "rule": "SQL statements from a grammar-directed generator (select items with nested calls/arithmetic/aliases, namespace, tag conditions with and/or/not/in/like/regex, time range, group by with time(), having, order by, limit), planner-filled statements, and raw expression trees up to depth 4 (6 in thorough) including shapes the parser never builds; non-trivial = nesting depth >= 3 and >= 4 optional clauses (SQL) resp. depth >= 4 (raw trees); distinct = different JSON",
+    "trusted": ["modelled, not verified: jsoniter (bytes <-> tree), float64 text, Interval.String/ValueOf (round trip on whole-second values checked directly by the harness)", "the SQL parser is exercised, not modelled"],
+    "assumptions": ["intervals on the wire are whole seconds (what the parser and the planner produce); sub-second remainders are lost by Interval.String (outside the property's inputs)"],
+    "replay_help": "case.sql / case.expr is the statement, case.wire the JSON the implementation produced; correspondence_code 1 = the model's marshal differs from the wire JSON or the model's decoder rejects it; direct violations (oracle_code 900) = the Go round trip returned a different statement, with both renderings",
+}
+
 for _pid in PROPS:
     NOT_APPLICABLE.pop(_pid, None)
